@@ -41,9 +41,10 @@ K_CAPCAP = "C04:capsule_capsule:in-gap-contact-dropped"
 K_PLANEMESH = "C04:plane_convex:separated-within-margin-no-contact"
 K_BROADPAIR = "C04:broadphase:explicit-pair-margin-ignored"
 K_CCD = "C04:ccd:margin-inflated-epa-inaccurate"
-# open findings (known_findings.json); K_SOLREF, K_CAPCAP, K_BROADPAIR were repaired in /repo (c20ef50, d4407f1, a1b67de):
+K_CAPPAR = "C04:capsule_capsule:near-parallel-float32-det"
+# open findings; K_SOLREF, K_CAPCAP, K_BROADPAIR, K_PLANEBOX were repaired in /repo (c20ef50, d4407f1, a1b67de, a1c62a5):
 # their witnesses stay as regression cases under the same keys
-KNOWN_KEYS = (K_PLANEBOX, K_PLANEMESH, K_CCD)
+KNOWN_KEYS = (K_PLANEMESH, K_CCD, K_CAPPAR)
 
 # =============================================================================================
 # wrapper kernels (private; call the real @wp.func of /repo)
@@ -895,6 +896,294 @@ def oracle(res, nscene):
 
 
 # =============================================================================================
+# structured pose families (directed oracle) for every primitive pair
+# =============================================================================================
+# Random poses almost never produce exactly parallel / perpendicular axes, a capsule lying along a box edge, a long shape
+# overhanging a short one, ...: the branches of the primitive functions that handle those are reached only by construction.
+# One fixed member of the model family (same 27 type pairs -> same kernels) with dyadic, pairwise different sizes; the pair
+# under test is posed, every other body is parked far away; poses are batched as worlds.
+S_SIZES = {
+  "sphere": ["0.125", "0.0625", "0.1875"],
+  "capsule": ["0.25 0.75", "0.1875 0.03125", "0.0625 0.25"],  # long, pill, thin
+  "ellipsoid": ["0.25 0.125 0.0625", "0.1 0.2 0.15", "0.125 0.125 0.25"],
+  "cylinder": ["0.125 0.5", "0.25 0.0625", "0.1 0.15"],  # rod, disc, stub
+  "box": ["0.3 0.2 0.1", "0.1 0.25 0.4", "0.125 0.125 0.125"],  # two non-cubic boxes with 3 distinct half-sizes, one cube
+}
+S_MARGIN = {"sphere": [0.03125, 0, 0.015625], "capsule": [0.03125, 0, 0], "ellipsoid": [0, 0.03125, 0], "cylinder": [0.03125, 0, 0]}
+S_GAP = {"sphere": [0, 0.015625, 0], "capsule": [0, 0, 0.015625]}
+S_PAIRS = sorted(ANALYTIC | {("plane", "mesh")})
+
+
+def structured_scene():
+  s = '<geom name="g0" type="plane" size="5 5 .1"/>\n'
+  gtypes = ["plane"]
+  gi = 1
+  for t in TYPES:
+    for k in range(3):
+      extra = f'size="{S_SIZES[t][k]}"' if t != "mesh" else f'mesh="{["tet", "cube", "octa"][k]}"'
+      mg = S_MARGIN.get(t, [0, 0, 0])[k]
+      gp = S_GAP.get(t, [0, 0, 0])[k]
+      s += f'<body name="b{gi}" pos="{10 * gi} 0 30"><freejoint/><geom name="g{gi}" type="{t}" {extra} margin="{mg}" gap="{gp}"/></body>\n'
+      gtypes.append(t)
+      gi += 1
+  xml = f'<mujoco><option><flag multiccd="disable"/></option><asset>{MESH_ASSET}</asset>\n<worldbody>\n{s}</worldbody></mujoco>'
+  return xml, gtypes
+
+
+def _qmul(a, b):
+  w1, x1, y1, z1 = a
+  w2, x2, y2, z2 = b
+  return np.array([w1 * w2 - x1 * x2 - y1 * y2 - z1 * z2, w1 * x2 + x1 * w2 + y1 * z2 - z1 * y2,
+                   w1 * y2 - x1 * z2 + y1 * w2 + z1 * x2, w1 * z2 + x1 * y2 - y1 * x2 + z1 * w2])  # fmt: skip
+
+
+def _qaxis(axis, ang):
+  axis = np.asarray(axis, float)
+  axis = axis / np.linalg.norm(axis)
+  return np.concatenate([[np.cos(ang / 2)], np.sin(ang / 2) * axis])
+
+
+def _qmat(q):
+  w, x, y, z = q / np.linalg.norm(q)
+  return np.array([[1 - 2 * (y * y + z * z), 2 * (x * y - w * z), 2 * (x * z + w * y)],
+                   [2 * (x * y + w * z), 1 - 2 * (x * x + z * z), 2 * (y * z - w * x)],
+                   [2 * (x * z - w * y), 2 * (y * z + w * x), 1 - 2 * (x * x + y * y)]])  # fmt: skip
+
+
+_H = np.sqrt(0.5)
+S_RELS = [np.array([1.0, 0, 0, 0]), np.array([_H, _H, 0, 0]), np.array([_H, 0, _H, 0]), np.array([_H, 0, 0, _H])]  # I, Rx90, Ry90, Rz90
+S_TILTS = [None, ([1, 0, 0], 0.03), ([0, 1, 0], 0.03), ([1, 1, 1], 0.01)]
+S_DIRS = [np.array(v, float) for v in np.ndindex(3, 3, 3) if v != (1, 1, 1)]
+S_DIRS = [v - 1 for v in S_DIRS]  # the 26 face / edge / corner directions of a box
+S_F = [0.35, 0.7, 0.9, 1.0, 1.08]
+S_T = [0.0, 0.5, -0.5, 0.9, -0.9, 1.2, -1.2]
+
+
+def structured_poses(m, ga, gb, rng, nrandom):
+  """Relative poses (posA, quatA, posB, quatB) of geom gb against geom ga (ga = 0: the plane), in three strata:
+  slide  : exactly parallel axes (identity base orientation), B beside A, sliding along A's axis past both ends;
+  edge   : B's axis laid along each of the 12 edges of A's box (slightly tilted), over the middle and towards the corners;
+  general: random draws from {I, Rx90, Ry90, Rz90} x {exact, tilted} x 26 face/edge/corner placements x 5 depths x slides
+           x {identity, random} base orientation."""
+  hB = np.array(m.geom_aabb[gb][3:], float)
+  out = []
+
+  def rel_quat(r, t):
+    q = S_RELS[r].copy()
+    if S_TILTS[t] is not None:
+      q = _qmul(q, _qaxis(*S_TILTS[t]))
+    return q
+
+  if ga == 0:
+    for r in range(4):
+      for t in range(4):
+        for f in S_F + [1.3, -0.2]:
+          for extra in (None, 1):
+            q = rel_quat(r, t)
+            if extra is not None:
+              q = _qmul(_qaxis(rng.normal(size=3), rng.uniform(0, np.pi)), q)
+            hb = float(np.abs(_qmat(q)[2]) @ hB)  # half-height of B's rotated bounding box
+            out.append((None, None, np.array([rng.uniform(-1, 1), rng.uniform(-1, 1), hb * f]), q))
+    return out
+  cA, hA = np.array(m.geom_aabb[ga][:3], float), np.array(m.geom_aabb[ga][3:], float)
+
+  def place(qA, r, t, sdir, f, slide):
+    q = rel_quat(r, t)
+    n = sdir / np.linalg.norm(sdir)
+    hb = float(np.abs(_qmat(q).T @ n) @ hB)  # support of B's rotated bounding box along -n
+    off = cA + hA * sdir + n * hb * f
+    if slide:
+      ax = int(np.argmax(hA)) if sdir[int(np.argmax(hA))] == 0 else None
+      if ax is not None:
+        e = np.zeros(3)
+        e[ax] = 1
+        off = off + e * slide * hA[ax]
+    RA = _qmat(qA)
+    return (np.array([0, 0, 3.0]), qA, np.array([0, 0, 3.0]) + RA @ off, _qmul(qA, q))
+
+  ident = np.array([1.0, 0, 0, 0])
+  long_ax = int(np.argmax(hA))
+  # slide stratum: B's long axis parallel to A's long axis (exactly), lateral placements
+  rel_par = {2: 0, 1: 1, 0: 2}  # A's long axis z/y/x  <-  B's z axis under I / Rx90 / Ry90
+  for sdir in S_DIRS:
+    if sdir[long_ax] != 0 or np.count_nonzero(sdir) != 1:
+      continue
+    for f in S_F:
+      for sl in S_T:
+        out.append(place(ident, rel_par[long_ax], 0, sdir, f, sl))
+  # edge stratum
+  for sdir in S_DIRS:
+    if np.count_nonzero(sdir) != 2:
+      continue
+    ax = int(np.argmin(np.abs(sdir)))  # the edge runs along this axis of A
+    for f in (0.5, 0.9):
+      for sl in (0.0, 0.6, -0.6):
+        q = rel_quat(rel_par[ax], 1 + (len(out) % 3))
+        n = sdir / np.linalg.norm(sdir)
+        hb = float(np.abs(_qmat(q).T @ n) @ hB)
+        e = np.zeros(3)
+        e[ax] = 1
+        off = cA + hA * sdir + n * hb * f + e * sl * hA[ax]
+        out.append((np.array([0, 0, 3.0]), ident, np.array([0, 0, 3.0]) + off, q))
+  # general stratum
+  for _ in range(nrandom):
+    qA = ident if rng.random() < 0.5 else _qaxis(rng.normal(size=3), rng.uniform(0, np.pi))
+    out.append(place(qA, int(rng.integers(4)), int(rng.integers(4)), S_DIRS[int(rng.integers(26))], S_F[int(rng.integers(5))],
+                     S_T[int(rng.integers(7))] if rng.random() < 0.5 else 0.0))  # fmt: skip
+  return out
+
+
+def capsule_det32(xmat, m, g1, g2):
+  """The float32 determinant capsule_capsule tests against MJ_MINVAL (|det| < 1e-15 -> parallel branch), recomputed from
+  MJWarp's own geom_xmat, and sin^2 of the angle between the two axes."""
+  f = np.float32
+  a1 = xmat[g1][:, 2].astype(f) * f(m.geom_size[g1][1])
+  a2 = xmat[g2][:, 2].astype(f) * f(m.geom_size[g2][1])
+  dot = lambda x, y: f(f(f(x[0] * y[0]) + f(x[1] * y[1])) + f(x[2] * y[2]))  # noqa: E731
+  ma, mb, mc = dot(a1, a1), -dot(a1, a2), dot(a2, a2)
+  det = f(f(ma * mc) - f(mb * mb))
+  c = np.cross(xmat[g1][:, 2].astype(float), xmat[g2][:, 2].astype(float))
+  return float(det), float(c @ c)
+
+
+def adjudicate(m, mm, d, gtypes, q, gb, key, ref):
+  """A structured pose sits ON discontinuities of the contact functions (capsule exactly parallel to a box face, sphere centre
+  on a capsule axis, two box corners equally near): there the two engines may break an exact tie differently, which is inside
+  the property's float32 tolerance clause.  Geom gb's body is moved / turned by 1e-5 (6 times) and 1e-4 (6 times):
+    "ref-unstable"  mujoco.mj_collision's own answer for the pair changes (count, dist 1e-3, pos 2e-3, normal 2e-2);
+    "isolated-tie"  the reference is constant and MJWarp agrees with it at >= 10 of the 12 neighbours: the disagreement is confined
+                    to the exact pose;
+    "keep"          the disagreement persists in the neighbourhood: reported."""
+  import mujoco
+  import warp as wp
+
+  import mujoco_warp as mjw
+
+  rng = np.random.default_rng(int(abs(float(np.sum(q))) * 1e6) % (2**32))
+  b = 7 * (gb - 1)
+  qs = []
+  for i in range(12):
+    eps = 1e-5 if i < 6 else 1e-4
+    q2 = q.copy()
+    q2[b : b + 3] += eps * rng.normal(size=3)
+    q2[b + 3 : b + 7] = _qmul(_qaxis(rng.normal(size=3), eps), q2[b + 3 : b + 7])
+    qs.append(q2.astype(np.float32).astype(np.float64))
+  refs = []
+  for q2 in qs:
+    C = [c for c in mj_contacts(m, d, q2) if tuple(sorted(c["geom"])) == key]
+    if len(C) != len(ref):
+      return "ref-unstable"
+    used = set()
+    for ca in ref:
+      j = min((j for j in range(len(C)) if j not in used), key=lambda j: np.linalg.norm(C[j]["pos"] - ca["pos"]))
+      used.add(j)
+      if abs(C[j]["dist"] - ca["dist"]) > 1e-3 or np.linalg.norm(C[j]["pos"] - ca["pos"]) > 2e-3 or np.linalg.norm(C[j]["frame"][:3] - ca["frame"][:3]) > 2e-2:
+        return "ref-unstable"
+    refs.append(C)
+  d.qpos[:] = qs[0]
+  mujoco.mj_fwdPosition(m, d)
+  dd = mjw.put_data(m, d, nworld=12, nconmax=24)
+  wp.copy(dd.qpos, wp.array(np.stack(qs).astype(np.float32), dtype=float))
+  mjw.kinematics(mm, dd)
+  mjw.collision(mm, dd)
+  W, _ = mjw_contacts(dd, 12)
+  agree = 0
+  for w in range(12):
+    fw = []
+    compare_world(m, gtypes, refs[w], [c for c in W[w] if tuple(sorted(c["geom"])) == key], False, {}, fw)
+    agree += not fw
+  return "isolated-tie" if agree >= 10 else "keep"
+
+
+def structured_oracle(res, nrandom):
+  import warnings
+
+  import mujoco
+  import warp as wp
+
+  import mujoco_warp as mjw
+
+  rng = np.random.default_rng(vlib.seed() + 407)
+  xml, gtypes = structured_scene()
+  m = mujoco.MjModel.from_xml_string(xml)
+  d = mujoco.MjData(m)
+  with warnings.catch_warnings():
+    warnings.simplefilter("ignore")
+    mm = mjw.put_model(m)
+  if not full_signature(mm, gtypes):
+    return [("C04:oracle:harness-family", "structured scene is outside the model family", {})], 0
+  mujoco.mj_fwdPosition(m, d)
+  q0 = d.qpos.copy()
+  by_type = defaultdict(list)
+  for g, t in enumerate(gtypes):
+    by_type[t].append(g)
+  stats, fails, nposes, ties = {}, [], 0, {}
+  for ta, tb in S_PAIRS:
+    if ta == "plane":
+      combos = [(0, g) for g in by_type[tb]]
+    elif ta == tb:
+      ga = by_type[ta]
+      combos = [(ga[0], ga[1]), (ga[1], ga[2]), (ga[0], ga[2])]
+    else:
+      combos = [(by_type[ta][i], by_type[tb][j]) for i, j in ((0, 0), (1, 2), (2, 1))]
+    for ga, gb in combos:
+      poses = structured_poses(m, ga, gb, rng, nrandom)
+      qs = []
+      for pA, qA, pB, qB in poses:
+        q = q0.copy()
+        if ga:
+          a = 7 * (ga - 1)
+          q[a : a + 3], q[a + 3 : a + 7] = pA, qA
+        b = 7 * (gb - 1)
+        q[b : b + 3], q[b + 3 : b + 7] = pB, qB
+        qs.append(q.astype(np.float32).astype(np.float64))  # both engines get the same (float32-representable) state
+      nworld = len(qs)
+      d.qpos[:] = qs[0]
+      mujoco.mj_fwdPosition(m, d)
+      dd = mjw.put_data(m, d, nworld=nworld, nconmax=24)
+      wp.copy(dd.qpos, wp.array(np.stack(qs).astype(np.float32), dtype=float))
+      mjw.kinematics(mm, dd)
+      mjw.collision(mm, dd)
+      W, nacon = mjw_contacts(dd, nworld)
+      if nacon > dd.naconmax:
+        fails.append(("C04:oracle:harness-overflow", "contact buffer of the harness too small", {"nacon": nacon}))
+        continue
+      ncmp = 0
+      xmat_all = None
+      for w in range(nworld):
+        C = mj_contacts(m, d, qs[w])
+        fw = []
+        ncmp += compare_world(m, gtypes, C, W[w], False, stats, fw)
+        for k, what, info in fw:
+          if k.startswith("C04:oracle:") or (k == K_CAPCAP and info["types"] == ("capsule", "capsule")):
+            key = tuple(info["pair"])
+            exact_parallel = False
+            if info["types"] == ("capsule", "capsule"):
+              if xmat_all is None:
+                xmat_all = dd.geom_xmat.numpy()
+              det, sin2 = capsule_det32(xmat_all[w], m, *key)
+              exact_parallel = det == 0.0 and sin2 == 0.0
+              if abs(det) >= 1e-15 and sin2 < 1e-6 and len(info["mjw_dist"]) < len(info["mj_dist"]):
+                k = K_CAPPAR
+                what = f"capsule-capsule {key}: axes parallel to sin^2 = {sin2:.1e} but float32 det = {det:.2e} >= MJ_MINVAL, non-parallel branch taken: MuJoCo {len(info['mj_dist'])} contacts, MJWarp {len(info['mjw_dist'])}"
+            # both engines in their parallel branch on exact data are compared strictly; everything else only where the
+            # reference is locally constant
+            if k.startswith("C04:oracle:") and not exact_parallel:
+              verdict = adjudicate(m, mm, d, gtypes, qs[w], gb, key, [c for c in C if tuple(sorted(c["geom"])) == key])
+              if verdict != "keep":
+                ties[verdict] = ties.get(verdict, 0) + 1
+                continue
+          fails.append((k, f"structured pose ({gtypes[ga]} g{ga}, {gtypes[gb]} g{gb}) #{w}: " + what,
+                        {"xml": xml, "qpos": [qs[w].tolist()], "world": 0, "multiccd": False, **info}))  # fmt: skip
+      res.count(ncmp)
+      res.nontrivial(("structured", ga, gb, nworld))
+      nposes += nworld
+  stats["discarded_at_exact_ties"] = ties
+  res.extra["structured_pair_stats"] = stats
+  return fails, nposes
+
+
+# =============================================================================================
 # replay of fixed witnesses on the real code
 # =============================================================================================
 WITNESS_XML = {
@@ -914,6 +1203,10 @@ WITNESS_XML = {
   <geom name="p" type="plane" size="10 10 .001"/>
   <body pos="0 0 0.13"><freejoint/><geom name="s" type="sphere" size=".1"/></body>
   </worldbody><contact><pair geom1="p" geom2="s" margin="0.05"/></contact></mujoco>""",
+  K_CAPPAR: """<mujoco><worldbody>
+  <body pos="0 0 3"><freejoint/><geom type="capsule" size="0.25 0.75" margin="0.03125"/></body>
+  <body pos="0 0.30625 2.1" quat="0.70710678 0 0 0.70710678"><freejoint/><geom type="capsule" size="0.0625 0.25"/></body>
+  </worldbody></mujoco>""",
   K_PLANEMESH: """<mujoco><asset><mesh name="cube" vertex="-1 -1 -1 1 -1 -1 1 1 -1 -1 1 -1 -1 -1 1 1 -1 1 1 1 1 -1 1 1" scale="0.1 0.1 0.1"/></asset>
   <worldbody>
   <geom type="plane" size="10 10 .001" margin="0.05"/>
@@ -1008,7 +1301,7 @@ def witnesses(res):
     elif len(W) != len(C) or act_w != act_c:
       out.append((f"C04:boundary:{name}", f"exact boundary {name}: mujoco.mj_collision {len(C)} contacts active {act_c}, MJWarp {len(W)} contacts active {act_w}",
                   {"xml": xml, "qpos": None, "mujoco": C, "mjwarp": W}))  # fmt: skip
-  for key in (K_PLANEBOX, K_CAPCAP, K_PLANEMESH, K_BROADPAIR):
+  for key in (K_PLANEBOX, K_CAPCAP, K_PLANEMESH, K_BROADPAIR, K_CAPPAR):
     C, W = witness_contacts(WITNESS_XML[key])
     res.count(1)
     res.nontrivial(("witness", key))
@@ -1062,6 +1355,10 @@ def run(res):
   lap("witnesses")
   fails, nscene = oracle(res, 10 if quick else 150)
   lap("oracle")
+  sfails, nposes = structured_oracle(res, 60 if quick else 600)
+  fails += sfails
+  res.obligation("structured pose families ran for every primitive pair", nposes > 0, f"{nposes} poses over {len(S_PAIRS)} type pairs x 3 size combinations")
+  lap("structured")
   res.obligation("oracle ran on the full type-pair family", nscene > 0, f"{nscene} scenes x 2 worlds")
   seen = defaultdict(int)
   for key, what, data in wfails + fails:
@@ -1084,6 +1381,8 @@ def run(res):
     "NATIVECCD-disabled models, heightfields, SDF and flex are not in the oracle's family; SAP broadphase is C18's",
     "at dist == margin + gap exactly (dyadic numbers) MuJoCo lists the inactive contact, MJWarp's strict comparison does not: inside the property's tolerance clause, not reported; the boundary scenes sit two float32 ulps on either side",
     "pairs with a contact within 1e-3 of margin or margin+gap are discarded (counted in oracle_pair_stats)",
+    "structured pose families (exactly parallel / perpendicular axes, edge-laid, corner / edge / face placements, slides past both ends, 3 size combinations per primitive type pair): a disagreement AT such a pose is reported only if it persists in the neighbourhood (body moved / turned by 1e-5 and 1e-4; see adjudicate()) - exact ties broken differently by float32 and float64 are inside the tolerance clause and counted in structured_pair_stats.discarded_at_exact_ties; exactly parallel capsules (float32 det == 0) are compared strictly",
+    "C04 translates no primitive geometry function (contact geometry T is C20's gens_prim); the directed families here drive the whole pipeline against mujoco.mj_collision",
   ]
 
 
